@@ -43,7 +43,10 @@ int32_t jls_core_scan_signals(struct jls_core_s * self) {
     s->signal_def.signal_id = 1;
     s->signal_def.signal_type = JLS_SIGNAL_TYPE_FSR;
     s->chunk_def.offset = 64;
-    s->tracks[JLS_TRACK_TYPE_FSR].parent = s;
+    /* the three track HEAD chunks an FSR signal is written with have been scanned */
+    s->tracks[JLS_TRACK_TYPE_FSR].parent = s;        s->tracks[JLS_TRACK_TYPE_FSR].track_type = JLS_TRACK_TYPE_FSR;
+    s->tracks[JLS_TRACK_TYPE_ANNOTATION].parent = s; s->tracks[JLS_TRACK_TYPE_ANNOTATION].track_type = JLS_TRACK_TYPE_ANNOTATION;
+    s->tracks[JLS_TRACK_TYPE_UTC].parent = s;        s->tracks[JLS_TRACK_TYPE_UTC].track_type = JLS_TRACK_TYPE_UTC;
     s->tracks[JLS_TRACK_TYPE_FSR].head_offsets[0] = have_fsr_data ? 8192 : 0;
     return 0;
 }
@@ -70,7 +73,14 @@ int32_t jls_core_scan_fsr_sample_id(struct jls_core_s * self) {
     }
     return 0;
 }
-int32_t jls_track_repair_pointers(struct jls_core_track_s * track) { (void) track; ++n_repair_ptr; return 0; }
+static unsigned repaired_mask, repaired_twice;
+int32_t jls_track_repair_pointers(struct jls_core_track_s * track) {
+    ++n_repair_ptr;
+    unsigned bit = 1u << (track->track_type & 7);
+    if (repaired_mask & bit) { repaired_twice |= bit; }
+    repaired_mask |= bit;
+    return 0;
+}
 int32_t jls_core_repair_fsr(struct jls_core_s * self, uint16_t signal_id) { (void) self; (void) signal_id; ++n_repair_fsr; return 0; }
 int32_t jls_core_wr_end(struct jls_core_s * self) { (void) self; ++n_wr_end; return 0; }
 static struct jls_core_fsr_s fsr_objs[4];
@@ -100,6 +110,8 @@ void harness(void) {
     } else {
         CHECK(n_open_a == 1 && n_truncate == 1 && n_wr_end == 1, "an unclosed file is repaired: append mode, truncate after the last complete chunk, END appended");
         CHECK(n_open_r == 2, "after the repair the file is reopened read-only");
+        CHECK(repaired_mask == ((1u << JLS_TRACK_TYPE_FSR) | (1u << JLS_TRACK_TYPE_ANNOTATION) | (1u << JLS_TRACK_TYPE_UTC)) && repaired_twice == 0,
+              "the pointers of every track of the signal (FSR, annotation, UTC) are repaired, each once");
     }
     if (rd) {
         jls_rd_close(rd);
